@@ -4,6 +4,10 @@
 //! `/repo/remoc`, rebuilt from the working tree on every check) and prints a trace
 //! in the line protocol understood by the Lean model drivers under `/verif/lean/Driver`.
 
-pub mod prng;
+pub mod gens;
 pub mod hex;
+pub mod prng;
+pub mod trace;
+pub mod transport;
 pub mod wiretext;
+pub mod world;
